@@ -21,11 +21,12 @@ import Drv.PathRes
 import Drv.Blocks
 import Drv.Errors
 import Drv.Rewrites
+import Drv.Regex
 open Lean
 
 def handlers : List (String → Json → Option (Except String Json)) :=
   [Drv.handleSegment, Drv.handleBundle,
-   Drv.handleMeta, Drv.handleEquals, Drv.handleConvert, Drv.handleLoad, Drv.handleResource, Drv.handleReader, Drv.handleWrite, Drv.handleJson, Drv.handleGrid, Drv.handleCombine, Drv.handlePathRes, Drv.handleBlocks, Drv.handleErrors, Drv.handleRewrites]
+   Drv.handleMeta, Drv.handleEquals, Drv.handleConvert, Drv.handleLoad, Drv.handleResource, Drv.handleReader, Drv.handleWrite, Drv.handleJson, Drv.handleGrid, Drv.handleCombine, Drv.handlePathRes, Drv.handleBlocks, Drv.handleErrors, Drv.handleRewrites, Drv.handleRegex]
 
 def dispatch (j : Json) : Except String Json := do
   let op ← (← j.getObjVal? "op").getStr?
